@@ -254,12 +254,35 @@ class StmtMixin(object):
         s1 = st.copy()
         s1.assume(t)
         self.refine_isinstance(node.test, s1, True)
-        s1 = self.exec_block(node.body, s1, acc)
+        s1 = self.exec_branch(node.body, s1, acc)
         s2 = st
         s2.assume(z3.Not(t))
         self.refine_isinstance(node.test, s2, False)
-        s2 = self.exec_block(node.orelse, s2, acc)
+        s2 = self.exec_branch(node.orelse, s2, acc)
         return self.merge([s1, s2])
+
+    def exec_branch(self, body, st, acc):
+        """Execute one branch of an `if`.  A construct outside the supported subset makes the function undecided --
+        unless the branch is provably unreachable under the contracts (then it is dropped: sound)."""
+        probe = st.copy()
+        try:
+            return self.exec_block(body, st, acc)
+        except Undecided:
+            if self.branch_is_dead(probe):
+                self.assumptions_used.add("dead-branch-with-unsupported-code-dropped")
+                return None
+            raise
+
+    def branch_is_dead(self, st):
+        from .engine import _has_quantifier
+        s = z3.Solver()
+        s.set("timeout", 3000)
+        for ax in self.u.literal_axioms():
+            s.add(ax)
+        for f in st.pc:
+            if not _has_quantifier(f):
+                s.add(f)
+        return s.check() == z3.unsat
 
     def refine_isinstance(self, test, st, positive):
         """Flow-sensitive static class after `isinstance(x, C)` / `x is None` tests (locals only)."""
@@ -268,6 +291,13 @@ class StmtMixin(object):
         if isinstance(test, ast.BoolOp) and isinstance(test.op, ast.And) and positive:
             for v in test.values:
                 self.refine_isinstance(v, st, True)
+            return
+        if positive and isinstance(test, ast.Call) and isinstance(test.func, ast.Name) \
+                and test.func.id == "isinstance" and len(test.args) == 2 and isinstance(test.args[0], ast.Name) \
+                and ast.unparse(test.args[1]) in ("six.string_types", "six.text_type", "str"):
+            v = st.env.get(test.args[0].id)
+            if v is not None and v is not POISON and v.z is not None and v.kind is None:
+                st.env[test.args[0].id] = SV(v.z, "str")
             return
         if positive and isinstance(test, ast.Call) and isinstance(test.func, ast.Name) \
                 and test.func.id == "isinstance" and len(test.args) == 2 \
